@@ -185,6 +185,7 @@ func propC12(c *Ctx) {
 				return
 			}
 			good := true
+			creg := NewRegion(cal) // the helper with its own single-use helpers (a counting function, …) inlined
 			for _, r := range returnsOf(cal) {
 				for _, lf := range phiLeaves(returnValues(r)[0]) {
 					switch v := lf.Val.(type) {
@@ -195,7 +196,22 @@ func propC12(c *Ctx) {
 					case *ssa.BinOp:
 						// counter <= 1 / < 2 / == 1|0
 						n, okc := constInt(v.Y)
-						_, isPhi := v.X.(*ssa.Phi)
+						isPhi := true // the compared value is a counter: a phi here or the result of an inlined counting helper
+						for _, leaf := range creg.Leaves(v.X) {
+							switch lv := leaf.(type) {
+							case *ssa.Phi:
+							case *ssa.Const:
+								if k, ok := constInt(lv); !ok || k != 0 {
+									isPhi = false
+								}
+							case *ssa.BinOp:
+								if _, ok := lv.X.(*ssa.Phi); !ok || lv.Op != token.ADD {
+									isPhi = false
+								}
+							default:
+								isPhi = false
+							}
+						}
 						if !(isPhi && okc && ((v.Op == token.LEQ && n <= 1) || (v.Op == token.LSS && n <= 2) || (v.Op == token.EQL && n <= 1))) {
 							good = false
 						}
@@ -208,7 +224,7 @@ func propC12(c *Ctx) {
 			// Event.Selected() (which recurses into tuple components) and of Block
 			if good {
 				overSel, overBlock := false, false
-				allInstrs(cal, func(in ssa.Instruction) {
+				creg.AllInstrs(func(in ssa.Instruction) {
 					b, ok := in.(*ssa.BinOp)
 					if !ok || b.Op != token.ADD {
 						return
